@@ -557,8 +557,16 @@ pub fn parse_condition(condition: &str) -> Result<crate::ast::Condition, Compile
         "true" => Ok(Condition::Bool(true)),
         "false" => Ok(Condition::Bool(false)),
         _ => {
+            // `name()` on its own is a call; `a == name()` is an ordinary expression.
             if let Some(name) = condition.strip_suffix("()") {
-                return Ok(Condition::FunctionCall(name.trim().to_owned()));
+                let name = name.trim();
+                if !name.is_empty()
+                    && name
+                        .chars()
+                        .all(|c| c.is_alphanumeric() || c == '_' || c == '.')
+                {
+                    return Ok(Condition::FunctionCall(name.to_owned()));
+                }
             }
 
             Ok(Condition::Expression(parse_expression(condition)?))
